@@ -55,11 +55,25 @@ JudgeArrive(e) ==
 
 (* a recovery from m >= K(n) distinct members' shares must give the one
    signature that verifies under the group public key *)
+(* member ids with structure the recovery might trip over; the two degenerate styles get their own
+   signatures (ids that coincide modulo the group order are the same interpolation point) *)
+StyleSuffix(e) == IF e.idStyle \in {"congruent", "zeroModOrder"} THEN ":" \o e.idStyle ELSE ""
+
 JudgeRecovered(e) ==
   IF e.m >= K(e.n)
-    THEN Tag(~e.panicked /\ e.generated /\ e.verifies, "Inv.RecoveredVerifiesUnderGroupKey") \o
-         Tag(e.panicked \/ ~e.generated \/ e.sigClass = 1, "Inv.RecoveredIsUnique")
+    THEN Tag(~e.panicked /\ e.generated /\ e.verifies, "Inv.RecoveredVerifiesUnderGroupKey" \o StyleSuffix(e)) \o
+         Tag(e.panicked \/ ~e.generated \/ e.sigClass = 1, "Inv.RecoveredIsUnique" \o StyleSuffix(e))
     ELSE Tag(~e.generated, "Recovered.belowThreshold")
+
+(* a dealer whose context is rebuilt deals the same pieces again: they are a function of the miner's
+   secret and the group hash *)
+JudgeRedeal(e) == Tag(e.samePieces /\ e.sameSeedPk, "Inv.RedealReproducesPieces")
+
+(* observations about degenerate ids (outside the statement): two members whose ids coincide modulo the
+   group order hold the same share; a member whose id is 0 modulo the order holds the group secret *)
+JudgeIdFacts(e) ==
+  Tag(~e.sharesOfMembers1And2Equal, "Ext.DistinctMembersHoldDistinctShares:" \o e.idStyle) \o
+  Tag(~e.member1HoldsGroupSecret, "Ext.NoMemberHoldsTheGroupSecret:" \o e.idStyle)
 
 (* recoveries running at the same time give what they give alone *)
 JudgeConcurrentRecover(e) ==
@@ -69,6 +83,8 @@ JudgeConcurrentRecover(e) ==
 Judge(e) ==
   CASE e.event = "K"         -> JudgeK(e)
     [] e.event = "ConcurrentRecover" -> JudgeConcurrentRecover(e)
+    [] e.event = "Redeal"    -> JudgeRedeal(e)
+    [] e.event = "IdFacts"   -> JudgeIdFacts(e)
     [] e.event = "DkgStart"  -> JudgeDkgStart(e)
     [] e.event = "Deliver"   -> JudgeDeliver(e)
     [] e.event = "DkgEnd"    -> JudgeDkgEnd(e)
@@ -78,7 +94,7 @@ Judge(e) ==
     [] OTHER                 -> <<"unknown-event">>
 
 TraceInit ==
-  /\ polys = <<>> /\ h = 0 /\ sk = <<>> /\ gpk = <<>>
+  /\ polys = <<>> /\ h = 0 /\ sk = <<>> /\ gpk = <<>> /\ got = <<>>
   /\ recv = [j \in 1..N |-> {}] /\ coll = <<>> /\ rec = None
   /\ l = 1 /\ bad = <<>> /\ gn = 0
 
@@ -97,7 +113,7 @@ TraceNext ==
        /\ rec' = CASE e.event = "CaseStart" -> None
                    [] e.event = "Arrive" /\ e.generated -> 1
                    [] OTHER -> rec
-       /\ UNCHANGED <<polys, h, sk, gpk>>
+       /\ UNCHANGED <<polys, h, sk, gpk, got>>
 
 TraceSpec == TraceInit /\ [][TraceNext]_tvars
 
